@@ -3,23 +3,24 @@ import importlib.util, os
 _s = importlib.util.spec_from_file_location("rc", os.path.join(VERIF, "props", "_runtime_common.py")); rc = importlib.util.module_from_spec(_s); _s.loader.exec_module(rc)
 
 def harnesses(tier, findings):
-    hs = []
-    if tier == "quick":
-        hs = [rc.source_unit(H, VERIF, 2, 2, 1, envmax=6), rc.sink_unit(H, VERIF, 1, 2, 1, envmax=6)]
-    else:
-        hs = [rc.source_unit(H, VERIF, 2, 3, 2, envmax=8, timeout=3000), rc.sink_unit(H, VERIF, 1, 3, 2, envmax=8, timeout=3000)]
+    hs = [rc.source_unit(H, VERIF, 2, 2, 1, envmax=6), rc.sink_unit(H, VERIF, 1, 2, 1, polls=2, envmax=5, delay0=True, tag="d0"),
+          rc.start_flags(H, VERIF, 1), rc.start_flags(H, VERIF, 2),
+          ] + [rc.api(H, VERIF, 3, 2, 2, 6, 900, name="api_fault_k%d_at%d_%s" % (k, at, "abort" if ab else "stop"),
+                     excludes=["FIX_EARLY=1", "CL_MODE=0", "FIX_N=2", "FAULT_KIND=%d" % k, "FAULT_AT=%d" % at, "FIX_ABORT=%d" % ab])
+               for (k, at, ab) in ((1, 0, 0), (1, 1, 0), (2, 0, 0), (1, 1, 1))]
+    if tier == "thorough":
+        hs += [rc.source_unit(H, VERIF, 2, 3, 2, envmax=8, timeout=3000, tag="b"), rc.sink_unit(H, VERIF, 1, 2, 2, polls=2, envmax=5, tag="k2", timeout=3500)]
     # sink died while the source may be blocked on a full ring
     sd = rc.source_unit(H, VERIF, 3, 2, 1, envmax=6)
     if "C09-source-blocked-when-sink-dies" in findings:
         sd.expect = r"sleeps forever in channel_write_map"
         sd.finding = "C09-source-blocked-when-sink-dies"
-        sd.also_allowed = []
     hs.append(sd)
     return hs
 
 META = dict(
     level="model_checking",
-    bounds=dict(quick="camera fault at every frame index < N<=2; storage fault at every append index <= 2; sink death at any boundary with the ring 1 frame deep",
+    bounds=dict(quick="camera fault at every frame index < N<=2; storage fault at every append index; sink death at any boundary with the ring 1 frame deep; whole runtime: fault in acquisition 1 (camera or storage, symbolic index), stop or abort, then a fault-free acquisition",
                 thorough="N<=3, ring 2 frames"),
     outside="as C07", assumptions=["as C07"],
 )
